@@ -17,6 +17,9 @@ type VerifBound struct {
 // VerifC13PreHeld: if i > 0 the pod already holds the IP of its i-th requested range before it is scheduled.
 var VerifC13PreHeld int
 
+// VerifC13Restart: after the pre-held IP is allocated galaxy-ipam restarts before the pod is scheduled.
+var VerifC13Restart bool
+
 // VerifBindForC13 schedules one statefulset pod requesting k ranges (k = 0 means no request_ip_range) on topology
 // topo whose pools carry the VLAN ids vlans (pool i gets vlans[i mod len]; may be symbolic) through the real Filter and Bind and reports the outcome.
 func VerifBindForC13(topo, k int, vlans ...uint16) *VerifBound {
@@ -48,6 +51,13 @@ func VerifBindForC13(topo, k int, vlans ...uint16) *VerifBound {
 		if err := w.plugin.ipam.AllocateSpecificIP(vpKeyOf(w.pods["ss-0"]), vpIP(held), floatingip.Attr{Policy: constant.ReleasePolicyPodDelete, NodeName: "n1", Uid: "U1"}); err != nil {
 			return nil
 		}
+		if VerifC13Restart {
+			// galaxy-ipam restarts (or reloads its configuration) while the IP is held: the tables are rebuilt from the store
+			floatingip.VPoolVlanOverride = vlans
+			if err := w.restart(); err != nil {
+				return nil
+			}
+		}
 	}
 	nodes, err := w.filter("ss-0", "n1", "n2", "n3")
 	if err != nil || len(nodes) == 0 {
@@ -59,6 +69,12 @@ func VerifBindForC13(topo, k int, vlans ...uint16) *VerifBound {
 	out := &VerifBound{Annotation: w.pods["ss-0"].Annotations[constant.ExtendedCNIArgsAnnotation]}
 	// what the store / pool configuration say about the pod's IPs, in the order of the request
 	d := w.dump()
+	for i := range d {
+		// mask / gateway / VLAN as the configuration defines them for the address (not as the table has them)
+		if x, ok := floatingip.VerifExpect(topo, d[i].IP); ok {
+			d[i].Mask, d[i].Gateway, d[i].Vlan = x.Mask, x.Gateway, x.Vlan
+		}
+	}
 	key := vpKeyOf(w.pods["ss-0"])
 	want := w.ips
 	if k > 0 {
